@@ -220,12 +220,14 @@ pub struct Case {
 }
 
 pub fn case_strategy() -> BoxedStrategy<Case> {
-    (any::<bool>(), any::<bool>(), prop::bool::weighted(0.3), vec(any::<u8>(), 0..14), vec(op_strategy(), 0..30))
+    (any::<bool>(), any::<bool>(), prop::bool::weighted(0.3), vec((any::<u8>(), proptest::option::weighted(0.12, crate::c15::edge_char())), 0..14), vec(op_strategy(), 0..30))
         .prop_map(|(bytes_mode, start_b, partial, atoms, ops)| {
             let mut input = Vec::new();
-            for a in atoms {
+            for (a, c) in atoms {
                 if bytes_mode {
                     input.extend_from_slice(BYTE_ATOMS[(a as usize * BYTE_ATOMS.len()) >> 8]);
+                } else if let Some(c) = c {
+                    input.extend_from_slice(c.encode_utf8(&mut [0; 4]).as_bytes());
                 } else {
                     input.extend_from_slice(STR_ATOMS[(a as usize * STR_ATOMS.len()) >> 8].as_bytes());
                 }
